@@ -23,7 +23,7 @@ def seq_configs(run, thorough_extra=False):
     return cfgs
 
 
-def run_seq_streams(run, a, pid, fail_pids, modes=('walk', 'boundary'), cfgs=None, collect_digests=None):
+def run_seq_streams(run, a, pid, fail_pids, modes=('walk', 'boundary', 'pairs'), cfgs=None, collect_digests=None):
     """Run hseq streams through `judge seq`. Oracle failures of properties in fail_pids become failures
     of this run; model diffs / bad traces are breakage."""
     cfgs = cfgs or seq_configs(run)
@@ -33,8 +33,8 @@ def run_seq_streams(run, a, pid, fail_pids, modes=('walk', 'boundary'), cfgs=Non
         for mode in (['replay'] if a.replay else list(modes)):
             if mode == 'replay':
                 cmd = [binpath, 'seq', 'replay', a.replay]
-            elif mode == 'boundary':
-                cmd = [binpath, 'seq', 'boundary']
+            elif mode in ('boundary', 'pairs'):
+                cmd = [binpath, 'seq', mode]
             else:
                 cmd = [binpath, 'seq']
             out, hrc, jrc, herr = vlib.pipe(cmd, ['seq'], env={'VERIF_PARITY': parity})
@@ -76,7 +76,7 @@ def run_seq_streams(run, a, pid, fail_pids, modes=('walk', 'boundary'), cfgs=Non
     return total_ops
 
 
-def core_check(pid, props_mod, fail_pids, modes=('walk', 'boundary'), sample=None):
+def core_check(pid, props_mod, fail_pids, modes=('walk', 'boundary', 'pairs'), sample=None):
     def f(run, a):
         vlib.extract()
         vlib.standard_lean_phase(run, props_mod)
@@ -86,3 +86,16 @@ def core_check(pid, props_mod, fail_pids, modes=('walk', 'boundary'), sample=Non
             run.samples += sample
         return run.finish()
     return f
+
+
+@drv.check('M1-probe')
+def m1_probe(run, a):
+    """Development aid (not registered in MANIFEST): run the seq streams and report every oracle failure of any property."""
+    run.trusted += CORE_TRUST
+    res = vlib.lake_build(['judge'])
+    if not res['judge'][0]:
+        raise vlib.BuildError(res['judge'][1][-2000:])
+    run_seq_streams(run, a, 'M1', {'C01', 'C02', 'C03', 'C04', 'C07', 'C08', 'C13', 'C16'}, cfgs=[('debug', 'even'), ('release', 'odd')])
+    props = sorted({f['what'].split()[2] for f in run.oracle_fails if len(f['what'].split()) > 2})
+    log('M1-probe failing properties:', props, ' breakage:', [b['what'][:80] for b in run.broken][:3])
+    return run.finish(level='other', explanation='probe')
